@@ -35,13 +35,16 @@ Record nodeobj := mkNode {
   n_name : string; n_pid : string;      (* spec.providerID, "" if unset *)
   n_pool : string;                      (* label karpenter.sh/nodepool, "" if absent *)
   n_itype : bool;                       (* has the instance-type label *)
-  n_init : bool; n_reg : bool;          (* initialized / registered labels *)
+  n_initp : bool;                       (* the initialized label is present with any non-empty value (what UpdateNode reads) *)
+  n_init : bool; n_reg : bool;          (* initialized / registered label = "true" (what Initialized / Registered read) *)
   n_cpu : Z; n_mem : Z;                 (* status.capacity, 0 = absent *)
   n_del : bool }.                       (* deletionTimestamp set *)
 
 Record claimobj := mkClaim {
   c_name : string; c_pid : string; c_pool : string; c_cpu : Z; c_mem : Z;
-  c_del : bool }.                       (* deletionTimestamp set (or InstanceTerminating) *)
+  c_del : bool;                         (* deletionTimestamp set (what UnmarkForDeletion reads) *)
+  c_term : bool }.                      (* condition InstanceTerminating is True *)
+Definition c_gone (c : claimobj) : bool := c_del c || c_term c.    (* what StateNode.Deleted reads *)
 
 Record podobj := mkPod {
   p_key : string; p_node : string;      (* spec.nodeName *)
@@ -129,7 +132,7 @@ Definition sn_cap (s : snode) : Z * Z :=
 
 Definition sn_deleted (s : snode) : bool :=
   match sn_claim s with
-  | Some c => c_del c
+  | Some c => c_gone c
   | None => match sn_node s with Some n => n_del n | None => false end
   end.
 
@@ -265,7 +268,7 @@ Definition epid (n : nodeobj) : string := if n_pid n =s "" then n_name n else n_
 
 Definition trackable (n : nodeobj) : bool :=
   let managed := negb (n_pool n =s "") in
-  negb ((n_pid n =s "") && managed) && negb (managed && negb (n_itype n) && negb (n_init n)).
+  negb ((n_pid n =s "") && managed) && negb (managed && negb (n_itype n) && negb (n_initp n)).
 
 (* populateResourceRequests: the pods listed by the spec.nodeName index *)
 Definition populate_step (name : string) (acc : snode * cache) (kp : string * podobj) : snode * cache :=
